@@ -23,6 +23,7 @@ def main(ctx):
     ownership.rule_owned_slots(ctx, ix)
     ownership.rule_anchoring(ctx, ix)
     ownership.rule_who_may_free(ctx, ix)
+    ownership.rule_lifetime(ctx, ix)
     ownership.rule_borrowed_pointers(ctx, ix)
     sweep(ctx, ["own.handback", "own.store_roots", "slices.compute_preserves_structure"])
     ctx.rule("C13.slots", "allocated slots = owned slots on every kernel", min_instances=1000)
